@@ -26,6 +26,7 @@ func (a vArrEnc) EncodeArray(enc Encoder) {
 
 var vIntConsts = [5]int64{0, -1, math.MinInt64, math.MaxInt64, 42}
 var vUintConsts = [3]uint64{0, math.MaxUint64, 7}
+var vFloatConsts = [7]float64{math.Copysign(0, -1), 0.1, 1e21, 9007199254740992, math.MaxFloat64, math.SmallestNonzeroFloat64, -2.5}
 
 // vKey: the first field's key is one arbitrary byte (escaping of keys), later keys are
 // distinct constants (so that a reordering is visible).
@@ -84,7 +85,12 @@ func vGenField(name string, depth, maxDepth int, full bool) (Field, string, *vJ)
 		v := vUintConsts[vChoose(name+"uint", len(vUintConsts))]
 		return Uint(key, v), key, vJNum(strconv.FormatUint(v, 10))
 	case 3:
-		f := vFloat64(name + "f")
+		var f float64
+		if k := vChoose(name+"fconst", len(vFloatConsts)+1); k < len(vFloatConsts) {
+			f = vFloatConsts[k]
+		} else {
+			f = vFloat64(name + "f")
+		}
 		return Float(key, f), key, vFloatToken(f)
 	case 4:
 		s := vString(name+"s", 1)
@@ -466,4 +472,27 @@ func vEncFloat[T FloatType](r *vRecEncoder, via int, v T) {
 	default:
 		Any("k", []T{v}).Encode(r)
 	}
+}
+
+//verif:witness H_C07_strings end
+//verif:bound C07 all string fidelity through the whole layout: one String field whose key (0..2 bytes) and value (0..3 bytes) are arbitrary bytes; the line must parse and decode to the sanitised key/value
+// H_C07_strings: arbitrary key/value bytes through JSONLayout.ToBytes and the reference parser.
+func H_C07_strings() {
+	var key, val string
+	if vChoose("which", 2) == 0 {
+		key = vString("key", vChoose("klen", 3))
+		val = "v"
+	} else {
+		key = "k"
+		val = vString("val", vChoose("vlen", 4))
+	}
+	e := &Event{Level: InfoLevel, Time: vFixedTime, File: "file.go", Line: 10, Tag: "_t_x", Fields: []Field{String(key, val)}}
+	out := (&JSONLayout{BaseLayout{FileLineLength: 48}}).ToBytes(e)
+	got, ok := vParseJSONLine(out)
+	vAssert(ok && got.kind == 'o' && len(got.vals) == 5, "one-valid-json-object-per-line")
+	if ok && got.kind == 'o' && len(got.vals) == 5 {
+		vAssert(vEqualCPs(got.keys[4], vCPs(key)), "key-decodes-to-sanitised-input")
+		vAssert(got.vals[4].kind == 's' && vEqualCPs(got.vals[4].s, vCPs(val)), "value-decodes-to-sanitised-input")
+	}
+	vReach("end")
 }
